@@ -120,6 +120,7 @@ class World:
         self.in_body_at_loss = None
         self.pending_at_hook = None
         self.in_body_at_hook = None
+        self.paused_at_hook = False
         self.errors = []
         world = self
 
@@ -236,6 +237,7 @@ class World:
         self.hook_times.append(self.now)
         if self.pending_at_hook is None:
             self.pending_at_hook, self.in_body_at_hook = self._snapshot()
+            self.paused_at_hook = bool(self.tr.paused_writing)
 
     def gate(self, hid):
         g = self.gates.get(hid)
@@ -533,6 +535,16 @@ def run_events(repo, cfg, events, budget=CPU_BUDGET_S):
                     break
                 if _TRIPPED[0]:
                     raise _Spin()
+            if stall is None:
+                # "left waiting" means for ever: callers queued behind the outgoing limiter after
+                # the loss are released wave by wave by their timeouts - give them the time
+                try:
+                    for _ in range(40):
+                        if all(r['task'].done() for r in w.outs.values()):
+                            break
+                        w.rig.advance(100)
+                except (vloop.Deadlock, vloop.Livelock) as e:
+                    stall = (len(events) - 1, type(e).__name__)
             if use_timer:
                 signal.setitimer(signal.ITIMER_VIRTUAL, 0)
             return obs, summary(w, stall)
@@ -552,7 +564,7 @@ def run_events(repo, cfg, events, budget=CPU_BUDGET_S):
 def spin_summary(n, budget):
     return {'stall': (0, 'Livelock'), 'handlers': {}, 'outs': {}, 'closers': {}, 'aborters': [],
             'hook_times': [], 'lost_at': None, 'pending_at_loss': None, 'in_body_at_loss': None,
-            'pending_at_hook': None, 'in_body_at_hook': None, 'closed': False,
+            'pending_at_hook': None, 'in_body_at_hook': None, 'paused_at_hook': False, 'closed': False,
             'closing': False, 'lost_delivered': False, 'leftover_session_tasks': 0,
             'leftover_own_tasks': 0, 'aborts': [], 'first_abort': None, 'loop_exceptions': [],
             'now': 0, 'writes_after_close': 0, 'max_send_delay': 0, 'processing_timeout': 0,
@@ -579,6 +591,7 @@ def summary(w, stall):
         'hook_times': list(w.hook_times), 'lost_at': w.lost_at,
         'pending_at_loss': w.pending_at_loss, 'in_body_at_loss': w.in_body_at_loss,
         'pending_at_hook': w.pending_at_hook, 'in_body_at_hook': w.in_body_at_hook,
+        'paused_at_hook': w.paused_at_hook,
         'closed': w.is_closed(), 'closing': w.tr.is_closing(),
         'lost_delivered': w.tr.lost_delivered,
         'leftover_session_tasks': len([t for t in left if t not in own]),
